@@ -46,9 +46,7 @@ pub fn step_create<M: MArch, const N: usize>(within: bool, paths: u8) {
     // arbitrary (live or stale) handle against the post-state
     let (key, ver) = any_issued_like::<N>();
     probe_entity::<M, N>(&mut world, &post, key, ver, paths);
-    if N >= 3 {
-        cover!(m.len > 0 && m.len + 1 < N, "create into a partly filled archetype");
-    }
+    cover!(N < 3 || (m.len > 0 && m.len + 1 < N), "create into a partly filled archetype");
     cover!(m.len + 1 == N, "create fills the archetype");
     cover!(post.lookup(M::ID, key, ver).is_none() && (key >> 8) as usize == (e.into_any().raw().0 >> 8) as usize && (key & 0xff) as u8 == M::ID, "stale handle of the reused position probed");
     std::mem::forget(world);
@@ -104,9 +102,7 @@ pub fn step_destroy<M: MArch, const N: usize>(kind: u8, paths: u8) {
     // arbitrary other handle (live or stale) against the post-state
     let (key2, ver2) = any_issued_like::<N>();
     probe_entity::<M, N>(&mut world, &post, key2, ver2, paths);
-    if N >= 2 {
-        cover!(exp.is_some() && exp.unwrap() + 1 < m.len, "destroyed a non-last entity (swap)");
-    }
+    cover!(N < 2 || (exp.is_some() && exp.unwrap() + 1 < m.len), "destroyed a non-last entity (swap)");
     cover!(exp.is_some() && exp.unwrap() + 1 == m.len, "destroyed the last dense entity");
     cover!(exp.is_none() && m.slot_live((key >> 8) as usize), "stale generation on a live position");
     cover!(exp.is_none() && ((key >> 8) as usize) < N && !m.slot_live((key >> 8) as usize) && m.slot_ver[(key >> 8) as usize] == ver, "free position with matching generation");
@@ -146,9 +142,7 @@ pub fn step_destroy_direct<M: MArch, const N: usize>(kind: u8, paths: u8) {
     }
     let (key2, ver2) = any_issued_like::<N>();
     probe_entity::<M, N>(&mut world, &post, key2, ver2, paths);
-    if N >= 2 {
-        cover!(exp.is_some() && exp.unwrap() + 1 < m.len, "destroyed a non-last entity by direct key");
-    }
+    cover!(N < 2 || (exp.is_some() && exp.unwrap() + 1 < m.len), "destroyed a non-last entity by direct key");
     cover!(exp.is_none() && idx < m.len, "stale direct version");
     std::mem::forget(world);
 }
